@@ -407,7 +407,7 @@ func writeEvidence(ck *Check, tier string, m *Report, viol int, wall time.Durati
 		"exhaustive":          m.Exhaustive,
 		"counters":            m.Counters,
 	}
-	if ck.Graph || m.States > 0 {
+	if m.States > 0 && m.Transitions > 0 {
 		cov["states"] = m.States
 		cov["transitions"] = m.Transitions
 		cov["traces_validated_against_impl"] = m.Traces
